@@ -153,10 +153,13 @@ CLAIMS = {
         "validated (shape conditions, TU by the oracle) and recomposed by library and model.",
    technique="Lean 4 theorems about the k-sum model (shape/rejection/round-trip/2-sum TU) + exact compose correspondence + decompose-recompose validation", design="5/C12"),
  "C18": dict(
-   text="Partial. Proof: a time-limited computation is modelled as a step list with clock checks; for every program, state and injection point the "
-        "limited run is either a timeout without output or exactly the unlimited result, it is the unlimited result when the injection lies beyond "
-        "the reads performed, and a timeout otherwise. What C18 is about in the C code - the cleanup on each of the 45 'return CMR_ERROR_TIMEOUT' "
-        "exits - is not exhibited by that model: it is decided by fault enumeration. Tie: clock() is interposed; every time-limited op of every "
+   text="Partial. Proof: (a) a time-limited computation as a step list with clock checks: for every program, state and injection point the "
+        "limited run is either a timeout without output or exactly the unlimited result; (b) C18Discipline.lean: a small language of function "
+        "bodies with scratch-stack and heap resources, clock checks, calls that propagate an error immediately (the CMR_CALL pattern) and calls "
+        "that release what the caller holds before passing the error on; for every body accepted by the discipline checker `safe` and every "
+        "injection point a timeout leaves stack depth and heap exactly as at entry, a run without timeout is balanced, and the limited run "
+        "refines the unlimited one; a body that uses CMR_CALL while holding an allocation leaks at a concrete injection point and is rejected. "
+        "That the C functions follow this discipline on each of their timeout exits is not proved: it is decided by fault enumeration. Tie: clock() is interposed; every time-limited op of every "
         "family is run unlimited, then once per clock read it performs with the limit expiring exactly at that read; each injected run must be "
         "CMR_ERROR_TIMEOUT with no object handed out, scratch stack restored, nothing leaked (LSan), or the identical unlimited answer; the same "
         "call repeated afterwards on the same environment must give the unlimited answer. The timeout sites reached are listed in the evidence.",
@@ -164,8 +167,10 @@ CLAIMS = {
    design="5/C18"),
  "C19": dict(
    text="Partial. Proof: on the allocator model every well-bracketed call restores the observable allocator state, so what a later call can see of "
-        "an earlier one is only the (uninitialised) content of the scratch memory, and the model of a recognition function is a pure function of "
-        "its arguments. That no scratch array is read before it is written, and that no other global state exists, is observed, not proved. Tie: "
+        "an earlier one is only the (uninitialised) content of the scratch memory; C19Init.lean: for programs over scratch memory that pass the "
+        "initialised-before-use check the output is the same for every initial scratch content, is the same when the call is repeated and after "
+        "any other call; a program reading before writing gives different outputs under the fill patterns 0x00 and 0xFF. That the C functions "
+        "initialise every scratch array before use, and that no other global state exists, is observed (fill patterns, histories, TSan), not proved. Tie: "
         "each op is run on a fresh environment (reference), then on one shared environment with scratch memory pre-filled with 0x00, in shuffled "
         "order between error/timeout calls with 0xFF fill, three times in a row, and on 8 threads with separate environments under "
         "ThreadSanitizer; results and certificates must be byte-identical to the reference and inputs unmodified (checksums before/after).",
@@ -176,8 +181,9 @@ CLAIMS = {
         "(toDense (ofDense M) = M); consistent sparse matrices are canonical (toDense injective); algebraic laws of transpose/support/slice at "
         "the dense level. Tie: every matrix returned by any op of any check is dumped as raw CSR arrays and checked; utilities compared exactly; "
         "writers' bytes parsed by the Lean format model and by the library; malformed token streams and all byte strings over a small "
-        "alphabet. The text-format parsers are modelled (Cmr/Text.lean) but parse(print A) = A is not yet a theorem: that clause rests on the "
-        "correspondence.",
+        "alphabet. The text formats are modelled in both directions (Cmr/Text.lean parsers, Cmr/Render.lean writers) and parse(render A) = A is "
+        "proved for the dense, sparse and submatrix formats for all shapes and all entries in the type's range (C20Roundtrip.lean); the "
+        "library writers' bytes are compared byte for byte with the model's rendering.",
    technique="Lean 4 theorems about the CSR invariant and canonical form + raw-array consistency check on every returned matrix + text-format correspondence", design="5/C20"),
 }
 
